@@ -85,3 +85,14 @@ Theorem C04_widths_are_the_source :
   forall w v id buf i, run_fill (prog_width w) (env_of w v id) buf i = Some (buf, Wire.width w v).
 Proof. exact (conj sync_wire_progs wire_width_is_width). Qed.
 Print Assumptions C04_widths_are_the_source.
+
+(* Put together: b.get(&field) for a field of wire type w - the regenerated
+   statement list of buffer.get run with the regenerated statement list of
+   T.UnmarshalBinary as its decoder and Wire.width (what T.width's statement
+   list returns) as its width - is Codec.get_val, the step every decoder
+   skeleton is interpreted with. *)
+Theorem C04_get_is_the_source : forall w old s,
+  run_get (fun d => lift (value_of w) (run_wdec (dprog_of w) (wv_of w old) d)) (Wire.width w) get_prog s
+  = get_val w old s.
+Proof. exact get_val_is_progs. Qed.
+Print Assumptions C04_get_is_the_source.
